@@ -226,6 +226,35 @@ func ruleUnknownStream(p *Prog, r *Out) {
 		}
 	}
 	pos := p.pos(fd.Pos())
+	// PRIORITY on an unknown stream keeps no state, but one that names itself as
+	// its parent is still an error (RFC 7540 s5.3.1)
+	selfDep := false
+	ast.Inspect(fd.Body, func(n ast.Node) bool {
+		ifs, ok := n.(*ast.IfStmt)
+		if !ok || squash(p.text(ifs.Cond)) != "fr.Body().(*Priority).Stream()==fr.Stream()" {
+			return true
+		}
+		ga, leaves := false, false
+		for _, s := range ifs.Body.List {
+			if es, ok := s.(*ast.ExprStmt); ok {
+				if c, ok := es.X.(*ast.CallExpr); ok && p.calleeOf(c) == "(*serverConn).writeGoAway" && len(c.Args) == 3 {
+					if v, ok := p.intConst(c.Args[1]); ok && v == 1 {
+						ga = true
+					}
+				}
+			}
+			if b, ok := s.(*ast.BranchStmt); ok && b.Tok == token.BREAK && b.Label != nil {
+				leaves = true
+			}
+		}
+		for _, g := range p.knownFacts(pm, ifs) {
+			if g.Val && squash(p.text(g.Cond)) == "fr.Type()==FramePriority" && ga && leaves {
+				selfDep = true
+			}
+		}
+		return true
+	})
+	r.check(selfDep, "PRIORITY on an unknown stream that depends on itself is refused", pos, "if parent == own id { GOAWAY(PROTOCOL_ERROR); leave }", "a PRIORITY frame on a stream that is not in the table is ignored even when it names its own stream as the parent: RFC 7540 s5.3.1 makes that an error of type PROTOCOL_ERROR")
 	r.check(rstIdle, "RST_STREAM on an idle id only (id > lastID)", pos, "fr.Stream() > sc.lastID (and not remembered as closed) -> GOAWAY", "the test that makes RST_STREAM on an unknown stream a connection error is no longer exactly `id > lastID` (possibly after asking the closed-stream memory): a late RST_STREAM for the most recent, already finished stream kills the connection (RFC 7540 s5.1: ignored on closed streams)")
 	r.check(lower, "lower-than-latest is strict (id < lastID)", pos, "fr.Stream() < sc.lastID -> GOAWAY", "the 'stream id lower than the latest' refusal is no longer exactly `id < lastID`")
 	r.check(lookup, "table lookup for ids up to lastID", pos, "fr.Stream() <= sc.lastID -> Search", "the stream table is searched under a condition on lastID other than `id <= lastID` (or not at all): ids at or below the highest accepted one must be found, or they are created a second time")
@@ -327,6 +356,26 @@ func ruleCompletionCloses(p *Prog, r *Out) {
 						closedAfter = true
 					}
 				}
+			}
+			// outside the frame path nothing comes along later to notice a closed
+			// state: the stream has to be taken out of the table there and then
+			if _, inTimer := n.(*ast.CommClause); inTimer || strings.Contains(p.text(c.Args[1]), "StreamCanceled") {
+				removed := false
+				for _, t := range list[i+1:] {
+					if es2, ok := t.(*ast.ExprStmt); ok {
+						if c2, ok := es2.X.(*ast.CallExpr); ok && p.text(c2.Fun) == "closeStream" && len(c2.Args) == 1 && p.text(c2.Args[0]) == recv {
+							removed = true
+						}
+					}
+				}
+				for _, t := range list[:i] {
+					if es2, ok := t.(*ast.ExprStmt); ok {
+						if c2, ok := es2.X.(*ast.CallExpr); ok && p.text(c2.Fun) == "closeStream" && len(c2.Args) == 1 && p.text(c2.Args[0]) == recv {
+							removed = true
+						}
+					}
+				}
+				r.check(removed, "stream reset off the frame path leaves the table ("+p.text(c.Args[1])+")", p.pos(c.Pos()), "closeStream(x) in the same block", "the stream loop resets "+recv+" where no frame of that stream is being handled (a timer, the implicit close of older streams) and does not take it out of the table: nothing later notices its closed state, so it keeps its entry and its concurrency slot for the life of the connection")
 			}
 			r.check(closedAfter, "stream reset by the loop is closed ("+p.text(c.Args[1])+")", p.pos(c.Pos()), "writeReset(x.ID(), ...) ; x.SetState(Closed)",
 				"the stream loop sends RST_STREAM("+p.text(c.Args[1])+") for "+recv+" but does not mark it closed in the same block: the stream stays in the table, half-closed and never answered, and keeps its concurrency slot")
